@@ -501,7 +501,8 @@ class HistogramND(HistogramBase):
         # TODO: inplace
         new_one = self.copy()
         axis_id = self._get_axis(axis)
-        new_one._frequencies = np.cumsum(new_one.frequencies, axis_id)
+        # (cumsum widens narrow integer types; keep dtype, frequencies and errors2 consistent)
+        new_one.frequencies = np.cumsum(new_one.frequencies, axis_id)
         return new_one
 
     def projection(self, *axes: Axis, **kwargs) -> HistogramBase:
